@@ -1,8 +1,4 @@
 pub mod toy;
-pub mod pairhash;
-pub mod ph64;
-pub mod ph6;
-pub mod ph1;
 pub mod ph1w;
 #[cfg(kani)]
 mod h {
@@ -36,6 +32,34 @@ mod h {
     #[kani::stub(alloc::fmt::format, nofmt)]
     fn fri_honest() { assert!(run(&PROOF)); }
 
+    // a channel that behaves like the default one but hands out a caller-chosen remainder
+    struct RemCh { inner: DefaultVerifierChannel<T, PairHash>, rem: Vec<T> }
+    impl fri::VerifierChannel<T> for RemCh {
+        type Hasher = PairHash;
+        fn read_fri_num_partitions(&self) -> usize { self.inner.read_fri_num_partitions() }
+        fn read_fri_layer_commitments(&mut self) -> Vec<PD> { self.inner.read_fri_layer_commitments() }
+        fn take_next_fri_layer_proof(&mut self) -> crypto::BatchMerkleProof<PairHash> { self.inner.take_next_fri_layer_proof() }
+        fn take_next_fri_layer_queries(&mut self) -> Vec<T> { self.inner.take_next_fri_layer_queries() }
+        fn take_fri_remainder(&mut self) -> Vec<T> { self.rem.clone() }
+    }
+    #[kani::proof]
+    #[kani::unwind(12)]
+    #[kani::stub(alloc::fmt::format, nofmt)]
+    fn fri_remainder_bound2() {
+        let mut r = SliceReader::new(&PROOF);
+        let proof = FriProof::read_from(&mut r).unwrap();
+        let commits = vec![PD(COMMITS[0]), PD(COMMITS[1])];
+        let inner = DefaultVerifierChannel::<T, PairHash>::new(proof, commits, 8, 2).unwrap();
+        let r0: u16 = kani::any(); let r1: u16 = kani::any();
+        kani::assume((r0 as u32) < P && (r1 as u32) < P);
+        let mut channel = RemCh { inner, rem: vec![T(r0), T(r1)] };
+        let mut coin = DefaultRandomCoin::<PairHash>::new(&[]);
+        let options = FriOptions::new(2, 2, 1);
+        let verifier = FriVerifier::new(&mut channel, &mut coin, options, 3).unwrap();
+        let ok = verifier.verify(&mut channel, &[T(QUERIED[0])], &POSITIONS).is_ok();
+        if ok { assert!(r0 == 105 && r1 == 110); }
+        core::mem::forget(verifier); core::mem::forget(channel);
+    }
     #[kani::proof]
     #[kani::unwind(12)]
     #[kani::stub(alloc::fmt::format, nofmt)]
